@@ -1,0 +1,7 @@
+//go:build verif
+
+// Contracts for index approximations (read as text by /verif's govc; comment-only).
+
+package index
+
+//@ inline func (a Approximation[T]) Exact() bool
